@@ -200,6 +200,21 @@ pub fn clock_program<F: Family>(idx: usize, prog: &Program<F>, mode: &Mode) -> P
                 );
             }
         }
+        for (src, tgts) in F::hb_must_reach(prog, &log) {
+            let a = &log[src];
+            if !tgts.iter().any(|b| dominates(&log[*b].clock, &a.clock)) {
+                complain(
+                    "happens-before-not-reflected",
+                    format!(
+                        "{:?} of thread {} (clock {:?}) must be in the past of at least one of {:?} but none of their clocks dominates it",
+                        a.kind,
+                        a.thread,
+                        a.clock,
+                        tgts.iter().map(|b| (log[*b].thread, log[*b].op, log[*b].clock.clone())).collect::<Vec<_>>()
+                    ),
+                );
+            }
+        }
         // ---- may: closure, then "never ordered without a chain"
         for k in 0..m {
             for i in 0..m {
